@@ -29,6 +29,9 @@ pub open spec fn same(a: ScopeReturnStatus, b: ScopeReturnStatus) -> bool {
         (ScopeReturnStatus::Did(x), ScopeReturnStatus::Did(y)) => ty_equal(x, y), _ => false }
 }
 #[verifier::external_body] pub fn status_eq(a: &ScopeReturnStatus, b: &ScopeReturnStatus) -> (r: bool) ensures r == same(*a, *b) { unimplemented!() }
+// C16 (cost discipline): `==` on two return parts that both carry a type compares those types -- which eq_complex then does again, at every level
+// of a nested function type (2^depth comparisons: D88).  The derived `==` may only be asked where it is cheap: when not both carry a type.
+#[verifier::external_body] pub fn status_eq_cheap(a: &ScopeReturnStatus, b: &ScopeReturnStatus) -> (r: bool) requires !(type_of(*a) is Some && type_of(*b) is Some) ensures r == same(*a, *b) { unimplemented!() }
 """
 
 
@@ -50,6 +53,7 @@ def build(repo):
         Rule("R6", "lhs . eq_complex ( rhs . as_ref ( ) , & TypecheckFlags :: < & ClassType > :: classless ( ) )", "eq_complex ( lhs , rhs )", why="type compatibility test abstract (classless flags)"),
     ], log, "ScopeReturnStatus::eq_for_signature_checking")
     check_closed(be, "eq_for_signature_checking")
+    bc = [("status_eq_cheap" if t == "status_eq" else t) for t in be]
     gen = header(log, f"{FILE}: ScopeReturnStatus::get_type, eq_for_signature_checking") + SPEC + f"""
 impl ScopeReturnStatus {{
     //@ OBL C02.ret_sig.get_type
@@ -68,13 +72,20 @@ impl ScopeReturnStatus {{
     {{
 {render(be, 2)}
     }}
+    //@ OBL C16.compat.ret-sig-once
+    // the same text: the types of two return parts are compared ONCE per level (by eq_complex), never also by `==` in front of it
+    pub fn eq_for_signature_checking_cost(&self, rhs: &ScopeReturnStatus) -> (r: Result<bool, VErr>)
+    {{
+{render(bc, 2)}
+    }}
 }}
 }} // verus!
 fn main() {{}}
 """
     return gen, [Obl("C02.ret_sig.get_type", ["C02", "C03"], fn="ScopeReturnStatus::get_type", desc="get_type: the declared type; `void` for a function without a result; nothing for `never`"),
-                 Obl("C02.ret_sig.agree", ["C02", "C03"], fn="ScopeReturnStatus::eq_for_signature_checking", desc="eq_for_signature_checking: true only for the same return part or for types the compatibility test accepts (no shortcut for `void`)")], log
+                 Obl("C02.ret_sig.agree", ["C02", "C03"], fn="ScopeReturnStatus::eq_for_signature_checking", desc="eq_for_signature_checking: true only for the same return part or for types the compatibility test accepts (no shortcut for `void`)"),
+                 Obl("C16.compat.ret-sig-once", ["C16"], fn="ScopeReturnStatus::eq_for_signature_checking", desc="cost discipline: the derived `==` of two return parts is only asked when not both carry a type -- otherwise their types would be compared twice at every level of a nested function type (D88: 2^depth)")], log
 
 
-UNITS = [VUnit("c02_ret_sig", ["C02", "C03"], "return parts of two function signatures: when they agree", build)]
+UNITS = [VUnit("c02_ret_sig", ["C02", "C03", "C16"], "return parts of two function signatures: when they agree", build)]
 UNITS[0].assumes = ["TypeLayout::eq_complex abstract (that `void` is compatible with no value type is its business); derived PartialEq of the enum as structural equality"]
